@@ -184,7 +184,6 @@ Proof.
     destruct (bph b) eqn:P; simpl; try apply T_none;
       try (eapply T_ph; eauto; apply PM_abort; auto; fail);
       try (eapply T_giveback; eauto; tauto).
-    eapply T_empty; eauto.
   - (* Close *)
     fold (blk s i). destruct (blk s i) as [b|] eqn:B; [|constructor].
     destruct (bph b) eqn:P; simpl; try apply T_none;
@@ -1370,35 +1369,15 @@ Proof.
     unfold chpool; autorewrite with bp; rewrite E; auto.
 Qed.
 
-(* REFUTED as a full-strength statement: "no pool ever goes below zero".  A borrowed SHARE can:
-   block 0 borrows 3 of 4, nested block 1 borrows 1 of the share; the task is signalled twice
-   in a row: the first signal starts the inner exit (own -= 1, postponed), the second lands in
-   that postponement (inner give-back of 1 to the share is only scheduled) and propagates to
-   the outer __aexit__, which removes its 3 from a share that holds 2. *)
-Definition double_fault : list op :=
-  [New 0 [3] false; Step 0; Step 0; Step 0; New 1 [1] false; Step 1; Step 1; Step 1;
-   Signal 1; Signal 1; Signal 0].
-
-Theorem share_negative_after_double_fault_refuted :
-  ~ (forall s, reachable_from (init 1 (Some [4]) [4]) s -> forall q k, 0 <= get k (pool q s)).
-Proof.
-  intros H. specialize (H (run (init 1 (Some [4]) [4]) double_fault)).
-  assert (X : reachable_from (init 1 (Some [4]) [4]) (run (init 1 (Some [4]) [4]) double_fault))
-    by (exists double_fault; reflexivity).
-  specialize (H X 1%nat 0%nat). vm_compute in H. apply H. reflexivity.
-Qed.
-
-(* used by the Examples of props/C12.v *)
-(* Capacities(4): A borrows 3, B (wants 2) waits; A is cancelled while its first acquire
-   postponement is pending (Taking): the give-backs run, B is woken and takes *)
-Definition demo : list op :=
-  [New 0 [3] false; New 0 [2] false; Step 0; Step 1; Signal 0; RunGb; RunGb; Step 1; Step 1; Step 1].
-
-(* ... and ONE signal suffices when it lands in a postponement of the nested block's own acquire
-   (or of its normal release): the nested give-back is only scheduled, the exception unwinds
-   into the owner's __aexit__ ([Signal 0] in Holding = the body raised) *)
+(* REFUTED as a full-strength statement: "no pool ever goes below zero".  A borrowed SHARE can
+   (known finding D18): block 0 borrows 3 of 4, nested block 1 borrows 1 of the share.  A signal
+   lands in the first ACQUIRE postponement of the nested block: its give-back of 1 to the share
+   is only scheduled; the interrupt is absorbed before it reaches the owner (an `until` between
+   the two blocks), the owner leaves on the awaited path and removes its 3 from a share that
+   holds 2.  (Since fix D20 an owner left BY the interrupt only schedules its removal, FIFO
+   behind the nested give-back, and the share stays >= 0.) *)
 Definition single_fault : list op :=
-  [New 0 [3] false; Step 0; Step 0; Step 0; New 1 [1] false; Step 1; Signal 1; Signal 0].
+  [New 0 [3] false; Step 0; Step 0; Step 0; New 1 [1] false; Step 1; Signal 1; Step 0].
 
 Theorem share_negative_after_single_fault_refuted :
   ~ (forall s, reachable_from (init 1 (Some [4]) [4]) s -> forall q k, 0 <= get k (pool q s)).
@@ -1408,3 +1387,31 @@ Proof.
     by (exists single_fault; reflexivity).
   specialize (H X 1%nat 0%nat). vm_compute in H. apply H. reflexivity.
 Qed.
+
+(* ... the same with the signal landing in the first RELEASE postponement of the nested block,
+   which was leaving normally *)
+Definition release_fault : list op :=
+  [New 0 [3] false; Step 0; Step 0; Step 0; New 1 [1] false; Step 1; Step 1; Step 1;
+   Step 1; Signal 1; Step 0].
+
+Theorem share_negative_after_release_fault_refuted :
+  ~ (forall s, reachable_from (init 1 (Some [4]) [4]) s -> forall q k, 0 <= get k (pool q s)).
+Proof.
+  intros H. specialize (H (run (init 1 (Some [4]) [4]) release_fault)).
+  assert (X : reachable_from (init 1 (Some [4]) [4]) (run (init 1 (Some [4]) [4]) release_fault))
+    by (exists release_fault; reflexivity).
+  specialize (H X 1%nat 0%nat). vm_compute in H. apply H. reflexivity.
+Qed.
+
+(* since D20: a task signalled (even repeatedly) inside a nested borrow, with nothing absorbing the
+   interrupt between the blocks, keeps its share >= 0: everything is scheduled FIFO *)
+Definition interrupt_unwinds : list op :=
+  [New 0 [3] false; Step 0; Step 0; Step 0; New 1 [1] false; Step 1; Step 1; Step 1;
+   Signal 1; Signal 0].
+
+(* used by the Examples of props/C12.v *)
+(* Capacities(4): A borrows 3, B (wants 2) waits; A is cancelled while its first acquire
+   postponement is pending (Taking): the give-backs run, B is woken and takes *)
+Definition demo : list op :=
+  [New 0 [3] false; New 0 [2] false; Step 0; Step 1; Signal 0; RunGb; RunGb; Step 1; Step 1; Step 1].
+
